@@ -106,7 +106,7 @@ func genCodecOpKind(op int) codecOp {
 				}
 				v, err := refwire.Force(w)
 				if err != nil {
-					return "", err
+					return "", fmt.Errorf("forcing the decoded value: %w", err)
 				}
 				return fmt.Sprintf("%d %x", end-off, ref.Encode(nil, v)), nil
 			})
@@ -145,6 +145,7 @@ func genCodecOpKind(op int) codecOp {
 		}
 		how := ch("c18.deep-how", 3)
 		plan := simio.Plan{TruncAt: -1, ErrAt: -1, Style: simio.Style(ch("c18.style", 3)), Seekable: ch("c18.seekable", 2) == 1}
+		plan.SeekFails = plan.Seekable && ch("c18.seek-fails", 3) == 1 // a pipe behind an *os.File
 		return codecOp{fmt.Sprintf("value nested %d levels deep (%s)", depth, []string{"Decode+force", "Decode+EvaluateValue", "Skip"}[how]), func() string {
 			return resultOf(func() (string, error) {
 				if how == 2 {
@@ -166,7 +167,7 @@ func genCodecOpKind(op int) codecOp {
 				}
 				v, err := refwire.Force(w)
 				if err != nil {
-					return "", err
+					return "", fmt.Errorf("forcing the decoded value: %w", err)
 				}
 				return fmt.Sprintf("%x", ref.Encode(nil, v)), nil
 			})
@@ -247,7 +248,7 @@ func genCodecOpKind(op int) codecOp {
 				}
 				v, err := refwire.Force(w)
 				if err != nil {
-					return "", err
+					return "", fmt.Errorf("forcing the decoded value: %w", err)
 				}
 				return fmt.Sprintf("%v then %x", outs, ref.Encode(nil, v)), nil
 			})
@@ -260,7 +261,9 @@ func genCodecOpKind(op int) codecOp {
 		return codecOp{"ReadRequest+failing WriteResponse+WriteResponse", func() string {
 			return resultOf(func() (string, error) {
 				r, _ := simio.NewReader(b, fullPlan)
-				rw, err := tbinary.Default.ReadRequest(context.Background(), wire.EnvelopeType(req.Type), r, &genericBody{})
+				ctx, done := context.WithCancel(context.Background())
+				rw, err := tbinary.Default.ReadRequest(ctx, wire.EnvelopeType(req.Type), r, &genericBody{})
+				done() // the request's context ends once the request has been read
 				if err != nil {
 					return "", err
 				}
@@ -319,6 +322,7 @@ func genCodecOpKind(op int) codecOp {
 		t := genType()
 		b := ref.Encode(nil, genVal(t, 0, genOpts{maxDepth: 3}))
 		plan := simio.Plan{TruncAt: -1, ErrAt: -1, Style: simio.Style(ch("c18.style", 3)), Seekable: ch("c18.seekable", 2) == 1}
+		plan.SeekFails = plan.Seekable && ch("c18.seek-fails", 3) == 1 // a pipe behind an *os.File
 		return codecOp{"Skip", func() string {
 			return resultOf(func() (string, error) {
 				o := stSkip(b, wire.Type(t), plan)
@@ -353,7 +357,7 @@ func genCodecOpKind(op int) codecOp {
 				}
 				v, err := refwire.Force(w)
 				if err != nil {
-					return "", err
+					return "", fmt.Errorf("forcing the decoded value: %w", err)
 				}
 				return fmt.Sprintf("%x", ref.Encode(nil, v)), nil
 			})
@@ -401,7 +405,9 @@ func genCodecOpKind(op int) codecOp {
 			return resultOf(func() (string, error) {
 				r, _ := simio.NewReader(b, plan)
 				gb := &genericBody{}
-				rw, err := tbinary.Default.ReadRequest(context.Background(), wire.EnvelopeType(req.Type), r, gb)
+				ctx, done := context.WithCancel(context.Background())
+				rw, err := tbinary.Default.ReadRequest(ctx, wire.EnvelopeType(req.Type), r, gb)
+				done() // the request's context ends once the request has been read
 				if err != nil {
 					return "", err
 				}
